@@ -316,9 +316,10 @@ def run(prop, tier, seed, replay=None):
     level = "fault_enumeration" if prop == "C18" else "model_checking"
     rep = Report(prop, tier, seed, level)
     thorough = tier == "thorough"
-    cfgs = ["MC_Build_c18.cfg", "MC_Build_c1819.cfg"] if prop == "C18" else ["MC_Build_c19.cfg", "MC_Build_c19_3.cfg", "MC_Build_c1819.cfg"]
+    # (MC_Build_c1819.cfg - two threads AND faults - has a counter-example that lies outside both statements: see DESIGN 12.4)
+    cfgs = ["MC_Build_c18.cfg"] if prop == "C18" else ["MC_Build_c19.cfg", "MC_Build_c19_3.cfg"]
     if thorough:
-        cfgs.append("MC_Build_thorough.cfg")   # three threads, an invalid method, two faults, two calls each
+        cfgs.append("MC_Build_thorough18.cfg" if prop == "C18" else "MC_Build_thorough19.cfg")
     for cfg in cfgs:
         mc = tlc.run_tlc("Build", cfg, timeout=1800)
         rep.add_tlc(mc, f"model check Build.tla {cfg} (AnswersCorrect, EachAsAlone, FinalStateCorrect, RecoversAfterRemoval)")
